@@ -482,3 +482,21 @@ def search_directories_absolute_before_chdir(ctx):
                    "`%s` is made absolute between each of its %d assignment(s) and this append" % (r.get("n"), len(srcs)) if not bad else
                    "`%s` reaches this append as it was spelled on the command line (assignment at %s), but main() changes directory before the path is used" % (r.get("n"), f.loc(bad[0])))
     ctx.floor("R17.9", "search-path appends in a main() that changes directory", n, 3)
+    # ... and the directory changes only after the last of them: once chdir() has run, a make_absolute() would resolve
+    # against the source directory (S9-C17: the chdir moved into the -srcdir arm of the option loop, so every -I/-S written
+    # after -srcdir was resolved there, and the same options in another order searched other directories)
+    m = 0
+    for f in db.functions:
+        if not f.file.endswith(("interrogate.cxx", "interrogate_module.cxx", "parse_file.cxx")):
+            continue
+        chd = [c for c in f.walk() if c.get("k") == "call" and c.get("f") == "Filename::chdir"]
+        if not chd:
+            continue
+        mks = [c for c in f.walk() if c.get("k") == "call" and callee_short(c) == "make_absolute" and "this" in c]
+        for c in chd:
+            m += 1
+            later = [k for k in mks if G.reaches_avoiding(f, c, [], k)]
+            ctx.ob("R17.9", "%s|chdir|after-every-make_absolute" % f.name, not later, f.loc(c),
+                   "no make_absolute() can run after the directory was changed" if not later else
+                   "after chdir(), make_absolute() at %s still runs: that path is resolved against the new directory" % f.loc(later[0]))
+    ctx.floor("R17.9", "chdir() calls judged", m, 1)
